@@ -114,6 +114,8 @@ func ruleC11(r *Report) {
 	safely(r, func() { checkDescent(r, p, sc, "C11.descent") })
 	r.Rule("C11.hash-linked", "every crypto.Hash identifier that can reach the receiver of (crypto.Hash).New in library code is a constant whose implementing package is linked (New panics otherwise); vacuous while digests are constructed by direct reference", 1)
 	safely(r, func() { checkHashLinked(r, p, "C11.hash-linked") })
+	r.Rule("C11.funcfield", "every call under xmlenc.Decrypt through an unexported function-typed field of a module struct, not under a nil test of the field, finds the field set: each composite literal of that struct type in library code stores a non-nil function into it (a nil function value panics when called)", 3)
+	safely(r, func() { checkFuncFields(r, a, fns, "C11.funcfield") })
 }
 
 // ---------------------------------------------------------------------------------------------
